@@ -324,10 +324,19 @@ func (p *parser) parsePermissionExpressions(finalToken itemType, depth int) *ast
 			expectExpression = false
 
 		case item.Typ == finalToken:
+			if root == nil {
+				// "()" or "=> ," : there is no expression at all
+				p.addFatal(item, "expected an expression, got %q", item.Val)
+				return nil
+			}
 			p.next() // consume final token
 			return root
 
 		case item.Typ == itemBraceRight:
+			if root == nil {
+				p.addFatal(item, "expected an expression, got %q", item.Val)
+				return nil
+			}
 			// We don't consume the '}' here, to allow `parsePermits` to consume
 			// it.
 			return root
@@ -387,7 +396,12 @@ func (p *parser) parseNotExpression(depth int) ast.Child {
 	var child ast.Child
 	if item := p.peek(); item.Typ == itemParenLeft {
 		p.next() // consume paren
-		child = p.parsePermissionExpressions(itemParenRight, depth-1)
+		rewrite := p.parsePermissionExpressions(itemParenRight, depth-1)
+		if rewrite == nil {
+			// do not wrap a nil *SubjectSetRewrite into a non-nil ast.Child
+			return nil
+		}
+		child = rewrite
 	} else {
 		child = p.parsePermissionExpression()
 	}
